@@ -333,6 +333,16 @@ func (e *Engine) solve(o *Obligation, dir string, timeout int) {
 	cvcfile := file
 	ctx, cancel := context.WithCancel(context.Background())
 	defer cancel()
+	// stage 1: one fast attempt with the solver that decides most obligations; the full portfolio only if it does not answer
+	if st1, out1 := runSolver(context.Background(), solvers[0], file, 2); st1 == "unsat" {
+		o.Status, o.Solver, o.Time, o.Output = "discharged", solvers[0].name, time.Since(start).Seconds(), solvers[0].name+": unsat"
+		os.Remove(file)
+		return
+	} else if st1 == "sat" {
+		o.Status, o.Solver, o.Model = "failed", solvers[0].name, out1
+		o.Time, o.Output, o.File = time.Since(start).Seconds(), solvers[0].name+": sat", file
+		return
+	}
 	type res struct{ solver, status, out string }
 	ch := make(chan res, len(solvers))
 	var wg sync.WaitGroup
